@@ -89,6 +89,23 @@ def streams(ctx):
     sts.append(Stream("threshold-1e8", ops, oracle=True, model_ops=pc.window_model_ops(),
                       judge=pc.window_judge(ctx, "threshold-1e8"), nontrivial=lambda o, r: None,
                       classify=lambda o, r: o.split()[1], timeout=1200))
+    # ---- (2b) root transitions: x = k^n - 1, k^n (n = 2, 3, 4, 6) are exactly the inputs where isqrt / iroot<N>, and with
+    # them y, a and every loop bound of Legendre / Meissel / Gourdon, change value; all cubes, fourth and sixth powers
+    # above the exhaustive range up to 1e8 (+ a sample of squares; all squares in the thorough tier), by increments
+    ops = []
+    ks = []
+    for n, kmax in ((3, 464), (4, 100), (6, 21)):
+        ks += [k ** n for k in range(2, kmax + 1) if k ** n > N]
+    sq = [k * k for k in range(int(N ** 0.5) + 1, 10 ** 4 + 1)]
+    ks += sq if not ctx.quick else rng.sample(sq, 400)
+    ks += [k ** n for n, lo, hi in ((2, 10 ** 4, 3 * 10 ** 6), (3, 465, 21000), (4, 101, 1700), (6, 22, 140))
+           for k in (rng.randint(lo, hi) for _ in range(25 if ctx.quick else 400))]
+    for v in sorted(set(ks)):
+        ops.append("piwin %s %d 1..4" % (rng.choice(("pi64", "pi128", "pistr")), v - 3))
+        count_regime(v, 4)
+    sts.append(Stream("root-transitions", pc.order_windows(ops), oracle=True, model_ops=pc.window_model_ops(),
+                      judge=pc.window_judge(ctx, "root-transitions"), nontrivial=lambda o, r: None,
+                      classify=lambda o, r: o.split()[1], timeout=1800))
     if not ctx.quick:
         ops = ["pi_batch %s %d" % (e, base) for e in ("pi64", "pistr")] + ["pi_batch pi128 %d" % pc.T_MEISSEL]
         sts.append(Stream("checkpoint-1e8", ops, oracle=True, judge=pc.batch_judge(ctx, "checkpoint-1e8"),
